@@ -359,8 +359,9 @@ func (self *Transformer) IterOnceWhileLoop(node ast.AnalyzedStatement) ast.Analy
 }
 
 func (self *Transformer) WhileStmtAsLoop(node ast.AnalyzedWhileStatement) []ast.AnalyzedStatement {
-	if node.Condition.Type().Kind() == ast.NeverTypeKind {
-		// This is required in order to prevent putting a `break` into a new loop, which defeats the purpose
+	if node.Condition.Type().Kind() == ast.NeverTypeKind || self.exprCanControlLoop(node.Condition) {
+		// This is required in order to prevent putting a `break` into a new loop, which defeats the purpose:
+		// a `break` / `continue` may also sit in only one branch of the condition, which then keeps its type
 		return []ast.AnalyzedStatement{node}
 	}
 
